@@ -6,12 +6,15 @@ import (
 	"encoding/json"
 	"fmt"
 	"net"
+	"sort"
 	"strconv"
 	"sync"
 	"testing"
 	"time"
 
 	"pgregory.net/rapid"
+
+	redispb "github.com/samaritan-proxy/samaritan/pb/config/protocol/redis"
 
 	"verif/harness/ref"
 	"verif/harness/sim"
@@ -25,7 +28,7 @@ func TestMain(m *testing.M) { vh.Main(m) }
 type verdict struct{ sig, msg string }
 
 type hop struct {
-	Op    string `json:"op"` // burst, drop, kill, stop, start, relayout, addmaster, failover, blackdrop
+	Op    string `json:"op"` // burst, drop, kill, stop, start, relayout, addmaster, failover, blackdrop, reparent
 	Node  int    `json:"node,omitempty"`
 	N     int    `json:"n,omitempty"`
 	RST   bool   `json:"rst,omitempty"`
@@ -40,12 +43,13 @@ type healCase struct {
 	ByName    bool  `json:"announce_by_name"` // nodes announce themselves as localhost:port (the proxy's name differs from the peer address)
 	Masters   int   `json:"masters"`
 	Replicas  int   `json:"replicas"`
+	Strategy  int   `json:"read_strategy,omitempty"` // 0 MASTER, 1 REPLICA, 2 BOTH
 	StartDown []int `json:"start_down"`
 	Ops       []hop `json:"ops"`
 }
 
 type healInfo struct {
-	faultThenTraffic, layoutMoved, dropsDuringPendingConnect int
+	faultThenTraffic, layoutMoved, dropsDuringPendingConnect, replicaSetChanged int
 }
 
 const (
@@ -163,7 +167,7 @@ func checkHeal(c healCase) (inf healInfo, v *verdict) {
 			h.down[d] = true
 		}
 	}
-	px, err := sim.StartProxy(sim.ProxyOpts{Seeds: w.AllAddrs(), ConnectTimeout: connectTimeout})
+	px, err := sim.StartProxy(sim.ProxyOpts{Seeds: w.AllAddrs(), ConnectTimeout: connectTimeout, ReadStrategy: redispb.ReadStrategy(c.Strategy)})
 	if err != nil {
 		return inf, &verdict{"proxy-start", err.Error()}
 	}
@@ -332,7 +336,9 @@ func checkHeal(c healCase) (inf healInfo, v *verdict) {
 			deadline := time.Now().Add(10 * time.Second)
 			key := w.KeyFor(nm, "fo:")
 			for {
-				r, v := h.do("GET", key)
+				// a write: under REPLICA / BOTH a read is served by the promoted node as "replica" of the dead master
+				// according to the old table, which proves nothing about the table
+				r, v := h.do("SET", key, "fo")
 				if v != nil {
 					return inf, v
 				}
@@ -344,6 +350,71 @@ func checkHeal(c healCase) (inf healInfo, v *verdict) {
 						where, nm, r, px.Counter("upstream.slots_refresh.success_total"), px.Counter("upstream.slots_refresh.failure_total"))}
 				}
 				time.Sleep(5 * time.Millisecond)
+			}
+		case "reparent":
+			// a replica is re-pointed to another master; every master keeps its address and its slots. The proxy must
+			// learn the new replica sets (reads under REPLICA / BOTH go by them) within a bounded number of refreshes.
+			if len(h.down) > 0 || len(w.Masters()) < 2 {
+				continue
+			}
+			var reps []int
+			for _, m := range w.Masters() {
+				reps = append(reps, w.Replicas(m)...)
+			}
+			if len(reps) == 0 {
+				continue
+			}
+			sort.Ints(reps)
+			r := reps[o.Node%len(reps)]
+			ms := w.Masters()
+			w.Lock()
+			cur := w.Nodes[r].Master
+			nm := ms[o.N%len(ms)]
+			if nm == cur {
+				nm = ms[(o.N+1)%len(ms)]
+			}
+			w.Nodes[r].Master = nm
+			w.Unlock()
+			s0 := px.Counter("upstream.slots_refresh.success_total")
+			kOld, kNew := w.KeyFor(cur, "rp:"), w.KeyFor(nm, "rp:")
+			if kOld == "" || kNew == "" {
+				continue
+			}
+			inf.layoutMoved++
+			if c.Strategy > 0 {
+				inf.replicaSetChanged++
+			}
+			for _, k := range []string{kOld, kNew} {
+				if _, v := h.do("SET", k, "rp"); v != nil {
+					return inf, v
+				}
+			}
+			deadline := time.Now().Add(10 * time.Second)
+			for px.Counter("upstream.slots_refresh.success_total") < s0+2 {
+				if time.Now().After(deadline) {
+					return inf, &verdict{"routing-never-converges", fmt.Sprintf("%s: replica %d was re-pointed from master %d to master %d, but no slot refresh succeeded within 10s (success_total %d -> %d)",
+						where, r, cur, nm, s0, px.Counter("upstream.slots_refresh.success_total"))}
+				}
+				if _, v := h.do("GET", kOld); v != nil { // a read that lands on the former replica is redirected, which triggers a refresh
+					return inf, v
+				}
+				time.Sleep(2 * time.Millisecond)
+			}
+			m0, a0 := w.Redirects()
+			for i := 0; i < 30; i++ {
+				for _, k := range []string{kOld, kNew} {
+					rr, v := h.do("GET", k)
+					if v != nil {
+						return inf, v
+					}
+					if rr.IsErr() || string(rr.S) != "rp" {
+						return inf, &verdict{"error-while-backend-reachable", fmt.Sprintf("%s: GET %s answered %s on a fully reachable cluster", where, k, rr)}
+					}
+				}
+			}
+			if m1, a1 := w.Redirects(); m1 != m0 || a1 != a0 {
+				return inf, &verdict{"still-redirected-after-refresh", fmt.Sprintf("%s: replica %d (%s) now follows master %d instead of %d; after two successful refreshes 60 reads of keys of these two masters still caused %d MOVED / %d ASK (read strategy %d)",
+					where, r, w.Nodes[r].Addr, nm, cur, m1-m0, a1-a0, c.Strategy)}
 			}
 		case "relayout", "addmaster":
 			if len(h.down) > 0 {
@@ -531,14 +602,17 @@ func keysForSlots(slots []int, n int) []string {
 }
 
 func genHeal(t *rapid.T) healCase {
-	c := healCase{Masters: rapid.IntRange(2, 4).Draw(t, "masters"), Replicas: rapid.IntRange(0, 1).Draw(t, "replicas"), ByName: rapid.IntRange(0, 2).Draw(t, "byname") == 0}
+	c := healCase{Masters: rapid.IntRange(2, 4).Draw(t, "masters"), Replicas: rapid.IntRange(0, 2).Draw(t, "replicas"), ByName: rapid.IntRange(0, 2).Draw(t, "byname") == 0,
+		Strategy: rapid.SampledFrom([]int{0, 0, 1, 2}).Draw(t, "strategy")}
 	if rapid.IntRange(0, 4).Draw(t, "startdown") == 0 {
 		c.StartDown = []int{rapid.IntRange(0, c.Masters-1).Draw(t, "sd")}
 	}
 	n := rapid.IntRange(1, 8).Draw(t, "n")
 	for i := 0; i < n; i++ {
 		o := hop{Node: rapid.IntRange(0, 5).Draw(t, "node")}
-		switch x := rapid.IntRange(0, 16).Draw(t, "op"); {
+		switch x := rapid.IntRange(0, 18).Draw(t, "op"); {
+		case x >= 17:
+			o.Op, o.N = "reparent", rapid.IntRange(0, 5).Draw(t, "rto")
 		case x >= 15:
 			o.Op, o.After, o.RST = "blackdrop", rapid.IntRange(0, 60).Draw(t, "bafter"), rapid.Bool().Draw(t, "brst")
 		case x == 14:
@@ -583,6 +657,12 @@ func TestHeal(t *testing.T) {
 		}
 		if inf.layoutMoved > 0 {
 			vh.Rec().Class("heal", "layout_change_moved_slots")
+		}
+		if inf.replicaSetChanged > 0 {
+			vh.Rec().Class("heal", "replica_set_changed_under_replica_reads")
+		}
+		if c.Strategy > 0 {
+			vh.Rec().Class("heal", "read_strategy_replica_or_both")
 		}
 		if inf.dropsDuringPendingConnect > 0 {
 			vh.Rec().Class("heal", "connections_lost_while_a_connect_was_pending")
